@@ -2648,3 +2648,148 @@ func ruleCursorAdvance(prog *Program, rep *Report) {
 	rep.Rules = append(rep.Rules, "R-cursor: where a parser takes an element of one of its slice fields at one of its cursor fields (the recycled maps of the Reuse option: m = p.maps[p.mi]) the cursor is incremented by a later statement of the same or an enclosing block: no element is handed out twice within a document")
 	runSynRule(prog, rep, "R-cursor", []string{"oj", "gen"}, matchCursorAdvance, fixtureCursorAdvance, 1, 2)
 }
+
+// ---------------------------------------------------------------- K-tableshape
+
+// ruleTableShape: the encoders pick a field accessor from per-kind tables of eight
+// functions indexed by option bits (as-string, omit-empty, by-interface):
+// int16ValFuncs = [8]valFunc{valInt16, valInt16AsString, ...}. The thirteen tables
+// of a package are copies of each other with the kind's name substituted, so
+// with the kind removed from every cell's name the tables must read the same,
+// and no table may list one function twice (a duplicated line silently drops an
+// option for that kind only).
+func ruleTableShape(prog *Program, rep *Report, rels ...string) {
+	rep.Rules = append(rep.Rules, "K-tableshape: the per-kind accessor tables of a package (arrays of functions of one type and length, named <kind><Suffix>) list no function twice and, with the kind's name removed from each cell's function name, all read the same sequence (majority of the sibling tables): the cell for an option combination holds the function for that combination for every kind")
+	type table struct {
+		name  string
+		cells []string
+		pos   token.Pos
+	}
+	total := 0
+	for _, rel := range rels {
+		pk := prog.Pkg(rel)
+		if pk == nil {
+			rep.Errorf("K-tableshape: package %s not loaded", rel)
+			continue
+		}
+		info := pk.TypesInfo
+		groups := map[string][]table{}
+		for _, f := range pk.Syntax {
+			if strings.HasSuffix(prog.Fset.Position(f.Pos()).Filename, "_test.go") {
+				continue
+			}
+			for _, d := range f.Decls {
+				gd, ok := d.(*ast.GenDecl)
+				if !ok || gd.Tok != token.VAR {
+					continue
+				}
+				for _, sp := range gd.Specs {
+					vs, ok := sp.(*ast.ValueSpec)
+					if !ok || len(vs.Names) != 1 || len(vs.Values) != 1 {
+						continue
+					}
+					cl, ok := vs.Values[0].(*ast.CompositeLit)
+					if !ok {
+						continue
+					}
+					at, ok := info.TypeOf(cl).Underlying().(*types.Array)
+					if !ok {
+						continue
+					}
+					if _, isFn := at.Elem().Underlying().(*types.Signature); !isFn {
+						continue
+					}
+					var cells []string
+					all := true
+					for _, e := range cl.Elts {
+						id, ok := e.(*ast.Ident)
+						if !ok {
+							all = false
+							break
+						}
+						if _, isF := info.Uses[id].(*types.Func); !isF {
+							all = false
+							break
+						}
+						cells = append(cells, id.Name)
+					}
+					if !all || len(cells) < 2 {
+						continue
+					}
+					g := fmt.Sprintf("%s[%d]", types.TypeString(at.Elem(), types.RelativeTo(pk.Types)), at.Len())
+					groups[g] = append(groups[g], table{vs.Names[0].Name, cells, vs.Pos()})
+				}
+			}
+		}
+		var gnames []string
+		for g := range groups {
+			gnames = append(gnames, g)
+		}
+		sort.Strings(gnames)
+		for _, g := range gnames {
+			tabs := groups[g]
+			if len(tabs) < 3 {
+				continue
+			}
+			// common suffix of the table names
+			suffix := tabs[0].name
+			for _, t := range tabs[1:] {
+				for !strings.HasSuffix(t.name, suffix) && suffix != "" {
+					suffix = suffix[1:]
+				}
+			}
+			shapes := map[string]int{}
+			shapeOf := map[string]string{}
+			for _, t := range tabs {
+				total += len(t.cells)
+				kind := strings.ToLower(strings.TrimSuffix(t.name, suffix))
+				var res []string
+				seen := map[string]bool{}
+				dup := ""
+				for _, c := range t.cells {
+					if seen[c] {
+						dup = c
+					}
+					seen[c] = true
+					lc := strings.ToLower(c)
+					if i := strings.Index(lc, kind); i >= 0 && kind != "" {
+						lc = lc[:i] + "~" + lc[i+len(kind):]
+					}
+					res = append(res, lc)
+				}
+				key := fmt.Sprintf("%s.%s", rel, t.name)
+				if dup != "" {
+					rep.Violate(Finding{Rule: "K-tableshape", Key: key + ":duplicate:" + dup, Pos: prog.Pos(t.pos), Msg: fmt.Sprintf("table %s lists %s twice: one option combination of this kind is served by the function of another", t.name, dup)})
+				}
+				sh := strings.Join(res, " ")
+				shapes[sh]++
+				shapeOf[t.name] = sh
+			}
+			major, mc := "", 0
+			for sh, c := range shapes {
+				if c > mc || (c == mc && sh < major) {
+					major, mc = sh, c
+				}
+			}
+			for _, t := range tabs {
+				key := fmt.Sprintf("%s.%s", rel, t.name)
+				if shapeOf[t.name] == major {
+					rep.Discharge("K-tableshape", key, prog.Pos(t.pos), fmt.Sprintf("same reading as %d of %d sibling tables", mc, len(tabs)))
+					continue
+				}
+				a, b := strings.Fields(shapeOf[t.name]), strings.Fields(major)
+				var diffs []string
+				for i := range a {
+					if i < len(b) && a[i] != b[i] {
+						diffs = append(diffs, fmt.Sprintf("cell %d: %s (siblings: %s)", i, t.cells[i], b[i]))
+					}
+				}
+				rep.Violate(Finding{Rule: "K-tableshape", Key: key + ":shape", Pos: prog.Pos(t.pos), Msg: fmt.Sprintf("table %s does not read like its %d sibling tables: %s", t.name, mc, strings.Join(diffs, "; "))})
+			}
+		}
+	}
+	rep.Eval(total)
+	if total < 100*len(rels) {
+		rep.Errorf("K-tableshape examined %d table cells (floor %d): anchors did not resolve", total, 100*len(rels))
+	}
+}
